@@ -110,7 +110,7 @@ def run_item(sc):
             ev.append({'ev': 'Hang'})
             break
         p, t, names = leftovers()
-        ev.append({'ev': 'Exited', 'procs': p, 'threads': t})
+        ev.append({'ev': 'Exited', 'procs': p, 'threads': t, 'backlog': server.backlog, 'single': sc['nwk'] == 1})
         if p or t:
             ev[-1]['names'] = names
         if cycle == 1:
